@@ -1,6 +1,6 @@
 pub proof fn lemma_clear<P: Prefix, T>(m1: PrefixMap<P, T>)
     requires
-        m1.tab().len() == 1, m1.free@.len() == 0, m1.count == 0, // [C16,FREE,COUNT]
+        m1.tab().len() == 1, m1.free@.len() == 0, m1.count == 0, // [C16,FREE,COUNT,C10]
         kb(m1.tab(), 0).len() == 0, // [SHAPE]
         m1.tab()[0].value.is_none(), // [C01,COUNT]
         m1.tab()[0].left.is_none(), m1.tab()[0].right.is_none(), // [SHAPE]
